@@ -32,3 +32,12 @@ def run(ck):
             if l.startswith("propfail ") and f[2] == "c06_forward_intact":
                 ck.fail_input("c06_forward_intact", l, traces.get(f[1], []))
     ck.rule = rule + "; plus clause c06_forward_intact on broker-connection traces (reactive-subscriber and request families)"
+    # whole broker: a publish (and a will) into the publisher's own full queue is refused before anything is changed /
+    # skips only the dying publisher's own session (go/cmd/system c06)
+    import _sys
+    ev, di, rule = ck.evaluations, ck.distinct, ck.rule
+    ex = _sys.run_sys(ck, "c06")
+    ck.evaluations = ev + ck.stats.get("direct_clauses_evaluated", 0)
+    ck.distinct = di + ck.stats.get("scenarios", 0)
+    ck.rule = rule + ("; plus whole-broker scenarios: a client subscribed to what it publishes with its own queue full (window 1, queue 2) among six "
+                      "clean and persistent observers: the refused publish reaches all of them or none (all_or_nothing), its will reaches all (will_delivered)")
